@@ -4,6 +4,7 @@ package main
 
 import (
 	"fmt"
+	"go/token"
 	"go/types"
 	"strings"
 
@@ -174,27 +175,94 @@ func (ex *Ex) frameViolation(fr *Frame, st *State, ins ssa.Instruction, what str
 	ex.oblige(fr, st, ex.obName(fr, "frame", ins), "frame", []string{"C18"}, "read-only frame: "+what, tFalse, posOf(ins))
 }
 
-func (ex *Ex) frameStoreCheck(fr *Frame, st *State, ins ssa.Instruction, l *Loc) {
-	// the target must be an object allocated on this path
-	var fresh []*T
-	for _, f := range st.fresh {
-		fresh = append(fresh, Eq(l.Ref, f))
+// frameOwned: r is an object this call may write to: allocated during the call (not alloc0), or
+// a declared output of the function under verification, i.e. one of its own pointer / map
+// parameters whose pointee is not an error type (a *state, a *printer, the seen-map of the hint
+// collector ...). Error objects are never outputs: a method of an error type gets no licence to
+// write its receiver.
+func (ex *Ex) frameOwned(st *State, r *T) *T {
+	alts := []*T{Not(App("alloc0", SBool, r))}
+	top := ex.Top
+	if top != nil && top.Fn != nil && top.Entry != nil {
+		for _, p := range top.Fn.Params {
+			switch u := p.Type().Underlying().(type) {
+			case *types.Pointer:
+				if ex.W.isErrorStruct(u.Elem()) {
+					continue
+				}
+			case *types.Map:
+			default:
+				continue
+			}
+			if v, ok := top.Entry.regs[p]; ok && v.T != nil && v.T.S.Eq(SRef) {
+				alts = append(alts, Eq(r, v.T))
+			}
+		}
 	}
-	goal := Or(fresh...)
-	if ex.frameAllowed(fr, st, l) {
-		return
-	}
-	ex.oblige(fr, st, ex.obName(fr, "frame", ins), "frame", []string{"C18"}, "read-only frame: store through a pointer that is not freshly allocated in this call", goal, posOf(ins))
+	return Or(alts...)
 }
 
-func (ex *Ex) frameAllowed(fr *Frame, st *State, l *Loc) bool { return false }
+// isErrorStruct: a named type T such that T or *T implements error (the objects the property is about)
+func (w *World) isErrorStruct(t types.Type) bool {
+	t = types.Unalias(t)
+	if _, ok := t.(*types.Named); !ok {
+		return false
+	}
+	errT := types.Universe.Lookup("error").Type().Underlying().(*types.Interface)
+	return types.Implements(t, errT) || types.Implements(types.NewPointer(t), errT)
+}
+
+func (ex *Ex) frameStoreCheck(fr *Frame, st *State, ins ssa.Instruction, l *Loc) {
+	what := "store through a pointer that is neither allocated in this call nor a declared output"
+	if l.Pointee != nil {
+		what += " (pointee " + ex.W.shortType(l.Pointee) + ")"
+	}
+	ex.oblige(fr, st, ex.obName(fr, "frame", ins), "frame", []string{"C18"}, "read-only frame: "+what, ex.frameOwned(st, l.Ref), posOf(ins))
+}
 
 func (ex *Ex) frameMapCheck(fr *Frame, st *State, ins ssa.Instruction, m *T) {
-	var fresh []*T
-	for _, f := range st.fresh {
-		fresh = append(fresh, Eq(m, f))
+	ex.oblige(fr, st, ex.obName(fr, "frame", ins), "frame", []string{"C18"}, "read-only frame: update of a map that is neither allocated in this call nor a declared output", ex.frameOwned(st, m), posOf(ins))
+}
+
+// frameArgsCheck: a module callee may write through its own pointer / map parameters (they are its
+// declared outputs); the caller must own what it passes there.
+func (ex *Ex) frameArgsCheck(fr *Frame, st *State, ins ssa.Instruction, callee *ssa.Function, args []Val) {
+	if !ex.FrameChk || callee == nil {
+		return
 	}
-	ex.oblige(fr, st, ex.obName(fr, "frame", ins), "frame", []string{"C18"}, "read-only frame: update of a map that is not freshly allocated in this call", Or(fresh...), posOf(ins))
+	inMod := callee.Pkg != nil && ex.W.InModule(callee.Pkg.Pkg)
+	if !inMod {
+		return
+	}
+	for i, p := range callee.Params {
+		if i >= len(args) {
+			break
+		}
+		switch u := p.Type().Underlying().(type) {
+		case *types.Pointer:
+			if ex.W.isErrorStruct(u.Elem()) {
+				continue // the callee has no licence to write it (checked on the callee)
+			}
+		case *types.Map:
+		default:
+			continue
+		}
+		if !ex.W.mayWriteParam(callee, i, 0) {
+			continue // the callee (transitively) never stores through this parameter
+		}
+		a := args[i]
+		if a.Ptr != nil && a.Ptr.Cell > 0 {
+			if _, mat := st.mat[a.Ptr.Cell]; !mat {
+				continue // address of a local of this call
+			}
+		}
+		t := ex.termOf(fr, st, a, p.Type())
+		if t == nil || !t.S.Eq(SRef) {
+			continue
+		}
+		name := fmt.Sprintf("%s.arg%d", ex.obName(fr, "frame", ins), i)
+		ex.oblige(fr, st, name, "frame", []string{"C18"}, "read-only frame: "+ex.W.funcName(callee)+" may write through its parameter "+p.Name()+"; the argument must be owned by this call", Or(Eq(t, NilRef), ex.frameOwned(st, t)), posOf(ins))
+	}
 }
 
 // ---------------- ghost frame levels (C16) ----------------
@@ -220,6 +288,163 @@ func isConstOperand(v ssa.Value) bool {
 			v = x.X
 		default:
 			return false
+		}
+	}
+	return false
+}
+
+// mayWriteParam: syntactic summary over SSA - does fn (or a module function it hands the value to)
+// store through parameter i, i.e. is there a Store / MapUpdate whose address derives from the
+// parameter by field / element addressing, slicing, loads of slices or phis, or is the parameter
+// (or something derived from it) passed on to a callee that may write it, stored somewhere, or
+// captured by a closure. External callees are assumed not to write through their arguments
+// except the mutating methods of bytes.Buffer / strings.Builder.
+func (w *World) mayWriteParam(fn *ssa.Function, i int, depth int) bool {
+	if w.writeSummary == nil {
+		w.writeSummary = map[string]int{}
+	}
+	key := fmt.Sprintf("%s#%d", fn.String(), i)
+	if v, ok := w.writeSummary[key]; ok {
+		switch v {
+		case 1:
+			return true
+		case 2:
+			return false
+		default: // in progress: a recursive cycle is cut here; negative results computed under a
+			// cut are not cached (they are re-derived when asked for at top level)
+			w.writeCuts++
+			return false
+		}
+	}
+	if i >= len(fn.Params) || len(fn.Blocks) == 0 {
+		return len(fn.Blocks) == 0 && (fn.Pkg != nil && w.InModule(fn.Pkg.Pkg))
+	}
+	if depth > 8 {
+		return true
+	}
+	w.writeSummary[key] = 0
+	cuts := w.writeCuts
+	res := w.derivedWritten(fn, fn.Params[i], depth)
+	switch {
+	case res:
+		w.writeSummary[key] = 1
+	case w.writeCuts == cuts || depth == 0:
+		w.writeSummary[key] = 2
+	default:
+		delete(w.writeSummary, key)
+	}
+	return res
+}
+
+func (w *World) derivedWritten(fn *ssa.Function, root ssa.Value, depth int) bool {
+	derived := map[ssa.Value]bool{root: true}
+	work := []ssa.Value{root}
+	for len(work) > 0 {
+		v := work[len(work)-1]
+		work = work[:len(work)-1]
+		refs := v.Referrers()
+		if refs == nil {
+			continue
+		}
+		for _, r := range *refs {
+			switch x := r.(type) {
+			case *ssa.Store:
+				if x.Addr == v {
+					return true
+				}
+				if x.Val == v {
+					return true // escapes into memory: give up (conservative)
+				}
+			case *ssa.MapUpdate:
+				if x.Map == v {
+					return true
+				}
+				if x.Value == v || x.Key == v {
+					return true
+				}
+			case *ssa.FieldAddr, *ssa.IndexAddr, *ssa.Slice, *ssa.Phi, *ssa.ChangeType, *ssa.Convert:
+				nv := r.(ssa.Value)
+				if _, basic := nv.Type().Underlying().(*types.Basic); basic {
+					continue // a scalar copied out of the object carries no reference
+				}
+				if !derived[nv] {
+					derived[nv] = true
+					work = append(work, nv)
+				}
+			case *ssa.UnOp:
+				// loading a slice / pointer / map out of the object: what it refers to belongs to
+				// the same object graph
+				if x.Op == token.MUL {
+					switch x.Type().Underlying().(type) {
+					case *types.Slice, *types.Pointer, *types.Map:
+						if !derived[x] {
+							derived[x] = true
+							work = append(work, x)
+						}
+					}
+				}
+			case *ssa.MakeClosure:
+				return true
+			case *ssa.MakeInterface:
+				// boxed and handed on: only matters when passed to a module callee as a non-error
+				// interface; conservative
+				nv := r.(ssa.Value)
+				if !derived[nv] {
+					derived[nv] = true
+					work = append(work, nv)
+				}
+			case *ssa.Call:
+				cc := x.Common()
+				callee := cc.StaticCallee()
+				if cc.IsInvoke() {
+					if cc.Value == v {
+						continue // method call on an interface we hold: reads it
+					}
+					continue
+				}
+				if b, ok := cc.Value.(*ssa.Builtin); ok {
+					switch b.Name() {
+					case "len", "cap", "print", "println", "min", "max":
+						continue
+					case "copy":
+						if len(cc.Args) > 0 && cc.Args[0] == v {
+							return true
+						}
+						continue
+					case "append":
+						if len(cc.Args) > 0 && cc.Args[0] == v {
+							return true // may write the spare capacity of the shared backing array
+						}
+						continue
+					default:
+						return true
+					}
+				}
+				if callee == nil {
+					if c := w.Contracts[fn]; c != nil && (c.PureCalls || len(c.PureFns) > 0) {
+						continue // T6: function values called here are pure (registry entries)
+					}
+					return true // dynamic call with our value as argument
+				}
+				inMod := callee.Pkg != nil && w.InModule(callee.Pkg.Pkg)
+				for ai, a := range cc.Args {
+					if a != v {
+						continue
+					}
+					if inMod {
+						if w.mayWriteParam(callee, ai, depth+1) {
+							return true
+						}
+					} else if ai == 0 && callee.Signature.Recv() != nil {
+						rt := callee.Signature.Recv().Type().String()
+						if (rt == "*bytes.Buffer" || rt == "*strings.Builder") && (strings.HasPrefix(callee.Name(), "Write") || callee.Name() == "Reset" || callee.Name() == "Truncate" || callee.Name() == "Grow") {
+							return true
+						}
+					}
+				}
+			case *ssa.Defer, *ssa.Go:
+				return true
+			}
 		}
 	}
 	return false
